@@ -20,6 +20,7 @@ import (
 	"go/types"
 
 	"go.uber.org/nilaway/annotation"
+	"go.uber.org/nilaway/config"
 	"go.uber.org/nilaway/util/analysishelper"
 	"go.uber.org/nilaway/util/asthelper"
 	"go.uber.org/nilaway/util/typeshelper"
@@ -124,9 +125,14 @@ func (c *collectedFieldEffects) markResultWithConstructSite(fn *types.Func, resu
 //
 // Unresolvable (interface/func-value) callees are treated as mutating/dereferencing nothing
 // (under-report only).
-func computeBoundaryFieldEffects(pass *analysishelper.EnhancedPass) *collectedFieldEffects {
+func computeBoundaryFieldEffects(pass *analysishelper.EnhancedPass, conf *config.Config) *collectedFieldEffects {
 	collected := newCollectedFieldEffects()
 	for _, file := range pass.Files {
+		// Files excluded from the analysis (e.g., generated files) contribute no effects, exactly
+		// as they contribute no assertions in the function analyzer.
+		if !conf.IsFileInScope(file) {
+			continue
+		}
 		for _, decl := range file.Decls {
 			fd, ok := decl.(*ast.FuncDecl)
 			if !ok || fd.Body == nil {
